@@ -1,7 +1,33 @@
 import FormulaeModel.Driver.Base
+import FormulaeModel.Spec.C17
 namespace FormulaeModel.Driver.C17
-open Lean FormulaeModel FormulaeModel.Driver
+open Lean FormulaeModel FormulaeModel.Driver FormulaeModel.Design FormulaeModel.Spec.C17
 
-def handle (_op : String) (_j : Json) : Option Json := none
+def sliceOfJson : Json → Option Slice
+  | .arr #[.str n, a, b] =>
+    match a.getNat?, b.getNat? with
+    | .ok s, .ok e => some ⟨n, s, e⟩
+    | _, _ => none
+  | _ => none
+
+def viewOfJson (j : Json) : View :=
+  { nrows := getNat j "nrows", ncols := getNat j "ncols",
+    rowLens := (getArr j "row_lens").filterMap (fun x => x.getNat?.toOption),
+    slices := (getArr j "slices").filterMap sliceOfJson,
+    termNames := strList j "terms",
+    labels := match j.getObjVal? "labels" with
+      | .ok (.arr a) => some (a.toList.filterMap (fun x => match x with | .str s => some s | _ => none))
+      | _ => none,
+    checkLabels := getBool j "check_labels" true,
+    expectedRows := getNat j "expected_rows" }
+
+def handle (op : String) (j : Json) : Option Json :=
+  match op with
+  | "c17_spec" =>
+    let views := (getArr j "views").map viewOfJson
+    some (Json.mkObj [("holds", Json.arr (views.map (fun v => Json.bool (holds v))).toArray),
+                      ("slices_ok", Json.arr (views.map (fun v =>
+                          Json.bool (slicesOk v.slices v.termNames v.ncols))).toArray)])
+  | _ => none
 
 end FormulaeModel.Driver.C17
